@@ -61,13 +61,18 @@ def main(p):
             else:
                 from sigpyproc.block import FilterbankBlock
                 C = 3
-                hdr = base_header(d, C, n)
-                x = rng.integers(0, 200, (C, n)).astype(np.float32)
-                blk = FilterbankBlock(x, hdr.new_header({"nsamples": n}))
-                fn = blk.to_file(os.path.join(d, "o.fil"))
-                f = FilReader(fn)
-                if f.header.nbits != 32 or f.header.nsamples != n or not np.array_equal(np.asarray(f.read_block(0, f.header.nsamples).data), x):
-                    bad.append(f"to_file: nbits {f.header.nbits}, nsamples {f.header.nsamples} (wrote {n})")
+                # the solver's length and a longer one, in both memory layouts a block can have (a fresh (nchans, nsamples)
+                # array is C-ordered, the view read_block returns is Fortran-ordered)
+                for nn in sorted({n, n + 4}):
+                    for order in ("C", "F"):
+                        hdr = base_header(d, C, nn)
+                        x = np.array(rng.integers(0, 200, (C, nn)).astype(np.float32), order=order)
+                        blk = FilterbankBlock(x, hdr.new_header({"nsamples": nn}))
+                        fn = blk.to_file(os.path.join(d, f"o{nn}{order}.fil"))
+                        f = FilReader(fn)
+                        if f.header.nbits != 32 or f.header.nsamples != nn or not np.array_equal(np.asarray(f.read_block(0, f.header.nsamples).data), x):
+                            bad.append(f"to_file ({order}-ordered block of {nn} samples): nbits {f.header.nbits}, nsamples {f.header.nsamples}, values equal: "
+                                       f"{f.header.nsamples == nn and bool(np.array_equal(np.asarray(f.read_block(0, f.header.nsamples).data), x))}")
         elif p["kind"] == "cwrite":
             nbits, dt, nchans = p["item"]
             hdr = base_header(d, nchans, n)
